@@ -167,11 +167,13 @@ VA:
 							}
 						}
 						if !present {
-							verifPoint("assigner-answer")
-							resp <- VarAns{ANS_OK, guessed}
 							verifPoint("assigner-notify")
 							useditem <- UsageNotify{TR_PROC, rproc, C_REGSIZE, S_NIL, i + 1}
 							busylist[rproc] = append(busylist[rproc], guessed)
+							// Answer the requester only after the usage monitor has been notified: the requester may
+							// be the last one before the monitor is told to exit
+							verifPoint("assigner-answer")
+							resp <- VarAns{ANS_OK, guessed}
 							created = true
 							break
 						}
@@ -197,11 +199,13 @@ VA:
 							}
 						}
 						if !present {
-							verifPoint("assigner-answer")
-							resp <- VarAns{ANS_OK, guessed}
 							verifPoint("assigner-notify")
 							useditem <- UsageNotify{TR_PROC, rproc, C_REGSIZE, S_NIL, i + 1}
 							busylist[rproc] = append(busylist[rproc], guessed)
+							// Answer the requester only after the usage monitor has been notified: the requester may
+							// be the last one before the monitor is told to exit
+							verifPoint("assigner-answer")
+							resp <- VarAns{ANS_OK, guessed}
 							created = true
 							break
 						}
@@ -232,11 +236,13 @@ VA:
 							}
 						}
 						if !present {
-							verifPoint("assigner-answer")
-							resp <- VarAns{ANS_OK, guessed}
 							verifPoint("assigner-notify")
 							useditem <- UsageNotify{TR_PROC, rproc, C_RAMSIZE, S_NIL, i + 1}
 							busylist[rproc] = append(busylist[rproc], guessed)
+							// Answer the requester only after the usage monitor has been notified: the requester may
+							// be the last one before the monitor is told to exit
+							verifPoint("assigner-answer")
+							resp <- VarAns{ANS_OK, guessed}
 							created = true
 							break
 						}
@@ -263,11 +269,13 @@ VA:
 							}
 						}
 						if !present {
-							verifPoint("assigner-answer")
-							resp <- VarAns{ANS_OK, guessed}
 							verifPoint("assigner-notify")
 							useditem <- UsageNotify{TR_PROC, rproc, C_RAMSIZE, S_NIL, i + 1}
 							busylist[rproc] = append(busylist[rproc], guessed)
+							// Answer the requester only after the usage monitor has been notified: the requester may
+							// be the last one before the monitor is told to exit
+							verifPoint("assigner-answer")
+							resp <- VarAns{ANS_OK, guessed}
 							created = true
 							break
 						}
@@ -323,14 +331,16 @@ VA:
 								}
 							}
 							if !present {
-								verifPoint("assigner-answer")
-								resp <- VarAns{ANS_OK, guessed}
 								// Only in the IO is inittializated its use has to be notified
 								if rcell.Global_id != 0 {
 									verifPoint("assigner-notify")
 									useditem <- UsageNotify{TR_PROC, rproc, C_INPUT, S_NIL, rcell.Global_id}
 								}
 								busylist[rproc] = append(busylist[rproc], guessed)
+								// Answer the requester only after the usage monitor has been notified: the requester may
+								// be the last one before the monitor is told to exit
+								verifPoint("assigner-answer")
+								resp <- VarAns{ANS_OK, guessed}
 								break
 							}
 						}
@@ -391,14 +401,16 @@ VA:
 								}
 							}
 							if !present {
-								verifPoint("assigner-answer")
-								resp <- VarAns{ANS_OK, guessed}
 								// Only in the IO is inittializated its use has to be notified
 								if rcell.Global_id != 0 {
 									verifPoint("assigner-notify")
 									useditem <- UsageNotify{TR_PROC, rproc, C_OUTPUT, S_NIL, rcell.Global_id}
 								}
 								busylist[rproc] = append(busylist[rproc], guessed)
+								// Answer the requester only after the usage monitor has been notified: the requester may
+								// be the last one before the monitor is told to exit
+								verifPoint("assigner-answer")
+								resp <- VarAns{ANS_OK, guessed}
 								break
 							}
 						}
@@ -451,13 +463,15 @@ VA:
 								}
 							}
 							if !present {
-								verifPoint("assigner-answer")
-								resp <- VarAns{ANS_OK, guessed}
 								verifPoint("assigner-notify")
 								useditem <- UsageNotify{TR_PROC, rproc, C_SHAREDOBJECT, "channel:", I_NIL}
 								busylist[rproc] = append(busylist[rproc], guessed)
 								verifPoint("assigner-notify")
 								useditem <- UsageNotify{TR_CHAN, guessed_global_id, C_CONNECTED, S_NIL, rproc}
+								// Answer the requester only after the usage monitor has been notified: the requester may
+								// be the last one before the monitor is told to exit
+								verifPoint("assigner-answer")
+								resp <- VarAns{ANS_OK, guessed}
 								created = true
 								break
 							}
@@ -509,13 +523,15 @@ VA:
 								}
 							}
 							if !present {
-								verifPoint("assigner-answer")
-								resp <- VarAns{ANS_OK, guessed}
 								verifPoint("assigner-notify")
 								useditem <- UsageNotify{TR_PROC, rproc, C_SHAREDOBJECT, "channel:", I_NIL}
 								busylist[rproc] = append(busylist[rproc], guessed)
 								verifPoint("assigner-notify")
 								useditem <- UsageNotify{TR_CHAN, guessed_global_id, C_CONNECTED, S_NIL, rproc}
+								// Answer the requester only after the usage monitor has been notified: the requester may
+								// be the last one before the monitor is told to exit
+								verifPoint("assigner-answer")
+								resp <- VarAns{ANS_OK, guessed}
 								created = true
 								break
 							}
@@ -549,14 +565,16 @@ VA:
 							}
 						}
 						if !present {
-							verifPoint("assigner-answer")
-							resp <- VarAns{ANS_OK, guessed}
 							verifPoint("assigner-notify")
 							useditem <- UsageNotify{TR_PROC, rproc, C_SHAREDOBJECT, "channel:", I_NIL}
 							busylist[rproc] = append(busylist[rproc], guessed)
 							busychan[guessed_global_id].Connected = append(busychan[guessed_global_id].Connected, rproc)
 							verifPoint("assigner-notify")
 							useditem <- UsageNotify{TR_CHAN, guessed_global_id, C_CONNECTED, S_NIL, rproc}
+							// Answer the requester only after the usage monitor has been notified: the requester may
+							// be the last one before the monitor is told to exit
+							verifPoint("assigner-answer")
+							resp <- VarAns{ANS_OK, guessed}
 							created = true
 							break
 						}
@@ -582,14 +600,16 @@ VA:
 							}
 						}
 						if !present {
-							verifPoint("assigner-answer")
-							resp <- VarAns{ANS_OK, guessed}
 							verifPoint("assigner-notify")
 							useditem <- UsageNotify{TR_PROC, rproc, C_SHAREDOBJECT, "channel:", I_NIL}
 							busylist[rproc] = append(busylist[rproc], guessed)
 							busychan[guessed_global_id].Connected = append(busychan[guessed_global_id].Connected, rproc)
 							verifPoint("assigner-notify")
 							useditem <- UsageNotify{TR_CHAN, guessed_global_id, C_CONNECTED, S_NIL, rproc}
+							// Answer the requester only after the usage monitor has been notified: the requester may
+							// be the last one before the monitor is told to exit
+							verifPoint("assigner-answer")
+							resp <- VarAns{ANS_OK, guessed}
 							created = true
 							break
 						}
